@@ -8,6 +8,8 @@ from .. import paths
 from ..core import FUNC, call_attr, calls_in, chain, dotted, kwarg, text, walk_local, norm, is_const, const
 
 EXPLANATION = [
+    'C03.connect-ind-address: Controller.create_le_connection announces in CONNECT_IND the same address expression under which it registers its own Connection.',
+    'C03.parse-guard-scope: the try of Controller.on_packet whose handler answers an unparseable command does not contain the dispatch to the command handlers.',
     'C03.cis-disconnect: the CIS branch of on_hci_disconnect_command concludes locally through on_le_cis_disconnected (which also removes a peripheral-side entry), in the same block in which it tells the peer.',
     'C03.abandoned-multiset: Host.abandoned_commands (one entry per response still owed) is created once and changed only by append / remove of a single opcode.',
     "C03.command-parse-guard: Controller.on_packet parses the raw packet under a catch-all handler that answers a command packet with a Command Status for the opcode read from the bytes; HCI_Object.format_fields (behind every packet's __str__, evaluated for the debug log before dispatch) takes max() over its rows only when there are rows.",
@@ -1246,7 +1248,47 @@ def cis_disconnect(ctx):
         R.check(bool(local), rule, f'{CTRL}.on_hci_disconnect_command | local conclusion', 'the branch concludes through on_le_cis_disconnected', 'the CIS branch emits its own Disconnection Complete instead of calling on_le_cis_disconnected: a peripheral-side CIS entry is never removed, so a second set-up of the same (CIG, CIS) is reported under the old handle and the accepted CIS request is never concluded', p.loc(c))
 
 
+def parse_guard_scope(ctx):
+    """The catch-all handler of Controller.on_packet that answers an unparseable command covers the parsing only: the
+    dispatch to the command handler is outside it, or a handler that raises after it has sent its own Command Status gets a
+    second one from the fallback."""
+    R, p = ctx.r, ctx.p
+    rule = 'C03.parse-guard-scope'
+    fn = p.find(f'{CTRL}.on_packet')
+    if fn is None:
+        R.bad(rule, f'{CTRL}.on_packet', 'anchor missing')
+        return
+    n = 0
+    for t in [x for x in walk_local(fn) if isinstance(x, ast.Try)]:
+        if not any(dotted(c.func) in ('self._send_hci_command_status', 'self.send_hci_packet') for h in t.handlers for c in calls_in(h)):
+            continue
+        n += 1
+        inside = [c for s_ in t.body + t.orelse for c in calls_in(s_) if dotted(c.func) in ('self.on_hci_packet', 'self.on_hci_command_packet')]
+        R.check(not inside, rule, f'{CTRL}.on_packet | answering handler', 'covers the parsing only', f'`{norm(inside[0])[:50] if inside else ""}` runs inside the try whose handler sends a Command Status: a command handler that raises after replying (the peer left the link) is answered a second time for the same opcode', p.loc(inside[0]) if inside else p.loc(t))
+    R.check(n == 1, rule, f'{CTRL}.on_packet | answering handlers', 'one', f'{n} found')
+
+
+def connect_ind_address(ctx):
+    """The address the central announces in CONNECT_IND is the one it registers its own end of the link under (and sends
+    its LL control PDUs from): the peer files the link under the announced address and drops control PDUs from any other."""
+    R, p = ctx.r, ctx.p
+    rule = 'C03.connect-ind-address'
+    fn = p.find(f'{CTRL}.create_le_connection')
+    if fn is None:
+        R.bad(rule, f'{CTRL}.create_le_connection', 'anchor missing')
+        return
+    ind = [c for c in ast.walk(fn) if isinstance(c, ast.Call) and call_attr(c) == 'ConnectInd']
+    con = [c for c in ast.walk(fn) if isinstance(c, ast.Call) and call_attr(c) == 'Connection' and kwarg(c, 'self_address') is not None]
+    if len(ind) != 1 or len(con) != 1:
+        R.bad(rule, f'{CTRL}.create_le_connection', f'{len(ind)} ConnectInd / {len(con)} Connection constructions (anchor)', p.loc(fn))
+        return
+    a, b = kwarg(ind[0], 'initiator_address'), kwarg(con[0], 'self_address')
+    R.check(a is not None and norm(a) == norm(b), rule, f'{CTRL}.create_le_connection', f'both use `{norm(b)}`', f'CONNECT_IND announces `{norm(a) if a is not None else None}` while the central registers the link under `{norm(b)}`: with a public own address the peer files the link under another address, drops the central\'s LL control PDUs (feature exchange, CIS request never concluded) and cannot route its termination back', p.loc(ind[0]))
+
+
 RULES = [
+    ('C03.connect-ind-address', connect_ind_address),
+    ('C03.parse-guard-scope', parse_guard_scope),
     ('C03.cis-disconnect', cis_disconnect),
     ('C03.abandoned-multiset', abandoned_multiset),
     ('C03.command-parse-guard', command_parse_guard),
